@@ -7,14 +7,14 @@ from harness.runner import BCheck
 from scenario import phasing as PH, vcf as V
 
 LEVEL = "exploration"
-LEVEL_TEXT = ("Deductive part (vcgen/z3, all inputs, over the axiomatised pysam model): PhasedVcfWriter._remove_existing_phasing clears HP and PS and every phase bit of the target samples' calls, sorts fully known genotypes (same allele multiset), leaves partially missing / absent genotypes, the calls of non-target samples and the FORMAT keys exactly as they were; _set_PS writes GT = the phase in order, marks every allele after the first phased and PS = component + 1; VcfReader._extract_GT_PS_phase reports a phase exactly for phased heterozygous calls, namely the genotype in order with the PS value as block; and the ROUND TRIP _set_PS -> _extract_GT_PS_phase returns (component + 1, phase) for every heterozygous phase, as a client lemma over those two contracts (contracts/vcf_py.py). "
+LEVEL_TEXT = ("Deductive part (vcgen/z3, all inputs, over the axiomatised pysam model): PhasedVcfWriter._remove_existing_phasing clears HP and PS and every phase bit of the target samples' calls, sorts fully known genotypes (same allele multiset), leaves partially missing / absent genotypes, the calls of non-target samples and the FORMAT keys exactly as they were; _set_PS writes GT = the phase in order, marks every allele after the first phased and PS = component + 1; _set_HP sets HP (and HS as given) and leaves the genotype and its phase bits alone; VcfReader._extract_GT_PS_phase reports a phase exactly for phased heterozygous calls, namely the genotype in order with the PS value as block; and the ROUND TRIP _set_PS -> _extract_GT_PS_phase returns (component + 1, phase) for every heterozygous phase, as a client lemma over those two contracts (contracts/vcf_py.py). "
               ""
-              "A LOOP-BODY contract for the record pass of PhasedVcfWriter.write (the loop verified as a unit over arbitrary per-sample result dictionaries; the code before it and the record modifier's write-after-yield are not): whichever `continue` a record takes, a call of a sample that is not being phased is untouched, and a call of a sample that is being phased ends either with NO phase statement (no phase bit, HP and PS empty wherever the record has those keys, whatever the input said) or with the NEW one in the run's encoding and nothing of the other encoding - with --tag=PS: genotype = the haplotype alleles in order, phase bits set, PS = component + 1, HP empty; with --tag=HP: HP set, no phase bit, PS empty (contracts/vcfwrite_py.py; _remove_existing_phasing enters through its proved contract, _set_phasing_tags through _set_PS's proved postcondition for PS and an assumed one for HP). "
+              "A LOOP-BODY contract for the record pass of PhasedVcfWriter.write (the loop verified as a unit over arbitrary per-sample result dictionaries; the code before it and the record modifier's write-after-yield are not): whichever `continue` a record takes, a call of a sample that is not being phased is untouched, and a call of a sample that is being phased ends either with NO phase statement (no phase bit, HP and PS empty wherever the record has those keys, whatever the input said) or with the NEW one in the run's encoding and nothing of the other encoding - with --tag=PS: genotype = the haplotype alleles in order, phase bits set, PS = component + 1, HP empty; with --tag=HP: HP set, no phase bit, PS empty (contracts/vcfwrite_py.py; _remove_existing_phasing enters through its proved contract, _set_phasing_tags through _set_PS's / _set_HP's proved postconditions, assuming only that __init__ bound the method that belongs to the tag). "
               "Bounded stand-in: runtime contracts on whole `whatshap phase` runs over generated multi-sample VCFs - (a) the PS and the HP output of the same "
               "run decode (with WhatsHap's own reader and with an independent decoder) to the same block and haplotype alleles, which are the ones "
               "the solver returned; (b) a phased VCF used as the only phase input is reproduced set by set; (c) re-phasing a file that already "
               "carries PS or HP phase gives exactly the phase statements obtained from the unphased file (all four tag histories), also after "
-              "unphase. The HP string codec (_set_HP / _extract_HP_phase: f-strings, split, int()) is not under deductive contract (string reasoning stays undecided in z3/cvc5).")
+              "unphase. The TEXT of the HP value and its decoder (_extract_HP_phase: split, int()) are not under deductive contract (string reasoning stays undecided in z3/cvc5).")
 LEVEL_NOTE = "Seeded sampling of block structures and histories, not exhaustive. Trusted: independent decoder in scenario/phasing.py."
 TECHNIQUE = "contract-based deductive verification of the PS encoder/decoder pair and of _remove_existing_phasing over an axiomatised pysam model (vcgen, z3) + runtime contracts (decode(encode)=id, PS/HP equivalence, history independence) on run_whatshap + VcfReader over generated VCFs; bounded"
 D_MODULES = ["contracts.vcf_py", "contracts.vcfwrite_py"]
